@@ -12,7 +12,7 @@ SPECS = [
     # ------------------------------------------------------------------ G1
     H("c11::g1a_from_compressed_checked", "C11.K.g1a.from_compressed",
       "G1Affine::from_bytes/from_compressed is Some iff blst_p1_uncompress succeeded on these bytes AND the on-curve AND the subgroup oracle said yes for that very point; the value is that point",
-      [f"{G1}::G1Affine::from_compressed", f"{G1}::<G1Affine as GroupEncoding>::from_bytes"], ORA, "G1Affine::from_compressed:contract", est=5),
+      [f"{G1}::G1Affine::from_compressed", f"{G1}::<G1Affine as GroupEncoding>::from_bytes"], ORA, "G1Affine::from_compressed:contract", est=5, timeout={"quick": 600, "thorough": 1800}),
     H("c11::g1a_from_compressed_unchecked", "C11.K.g1a.from_compressed_unchecked",
       "G1Affine::from_bytes_unchecked is Some iff uncompress succeeded and consults neither the on-curve nor the subgroup oracle",
       [f"{G1}::G1Affine::from_compressed_unchecked", f"{G1}::<G1Affine as GroupEncoding>::from_bytes_unchecked"], ORA,
@@ -33,10 +33,10 @@ SPECS = [
     H("c11::g1a_serde_object_contract", "C11.K.g1a.serde_object",
       "G1Affine from_raw_bytes / read_raw accept only (deserialize ok AND on-curve yes) and return that point; from_uncompressed_unchecked is Some iff deserialize ok, no oracle consulted",
       [f"{G1}::<G1Affine as SerdeObject>::from_raw_bytes", f"{G1}::<G1Affine as SerdeObject>::read_raw", f"{G1}::G1Affine::from_uncompressed_unchecked"],
-      ORA, "G1Affine::SerdeObject:contract", est=15),
+      ORA, "G1Affine::SerdeObject:contract", est=15, timeout={"quick": 600, "thorough": 1800}),
     H("c11::g1p_from_compressed_contract", "C11.K.g1p.from_compressed",
       "G1Projective::from_bytes = affine checked decoder then blst_p1_from_affine of that very point; from_bytes_unchecked skips exactly the on-curve/subgroup oracles",
-      [f"{G1}::G1Projective::from_compressed", f"{G1}::G1Projective::from_compressed_unchecked"], ORA, "G1Projective::from_compressed:contract", est=8),
+      [f"{G1}::G1Projective::from_compressed", f"{G1}::G1Projective::from_compressed_unchecked"], ORA, "G1Projective::from_compressed:contract", est=8, timeout={"quick": 600, "thorough": 1800}),
     H("c11::g1a_from_xy_contract", "C11.K.g1a.from_xy", "G1Affine::from_xy(x,y) is Some iff the on-curve oracle said yes for exactly (x,y)",
       [f"{G1}::<G1Affine as CurveAffine>::from_xy"], "all coordinate limbs, all oracle answers", "G1Affine::from_xy:contract", est=5),
     H("c11::g1p_jacobian_coordinates_is_representation", "C11.K.g1p.jacobian_coordinates",
@@ -46,31 +46,31 @@ SPECS = [
     H("c11::g1p_new_jacobian_is_representation", "C11.K.g1p.new_jacobian",
       "G1Projective::new_jacobian stores Z unchanged, hence must store the given Jacobian X, Y unchanged",
       [f"{G1}::<G1Projective as CurveExt>::new_jacobian"], "all canonical non-zero x,y,z with z != 1, all oracle answers",
-      "G1Projective::new_jacobian:homogeneous-vs-jacobian", est=8),
+      "G1Projective::new_jacobian:homogeneous-vs-jacobian", est=8, timeout={"quick": 600, "thorough": 1800}),
     # ------------------------------------------------------------------ G2
     H("c11::g2a_from_compressed_contract", "C11.K.g2a.from_compressed",
       "G2Affine::from_bytes is Some iff uncompress ok AND on-curve AND subgroup oracle yes for that point; from_bytes_unchecked iff uncompress ok, no oracle consulted",
-      [f"{G2}::G2Affine::from_compressed", f"{G2}::G2Affine::from_compressed_unchecked"], ORA, "G2Affine::from_compressed:contract", est=10),
+      [f"{G2}::G2Affine::from_compressed", f"{G2}::G2Affine::from_compressed_unchecked"], ORA, "G2Affine::from_compressed:contract", est=10, timeout={"quick": 600, "thorough": 1800}),
     H("c11::g2a_from_uncompressed_contract", "C11.K.g2a.from_uncompressed",
       "G2Affine from_uncompressed / from_raw_bytes / read_raw are Some iff deserialize ok AND on-curve AND subgroup oracle yes for that point; unchecked iff deserialize ok",
       [f"{G2}::G2Affine::from_uncompressed", f"{G2}::<G2Affine as SerdeObject>::from_raw_bytes", f"{G2}::<G2Affine as SerdeObject>::read_raw",
-       f"{G2}::G2Affine::from_uncompressed_unchecked"], ORA, "G2Affine::from_uncompressed:contract", est=40),
+       f"{G2}::G2Affine::from_uncompressed_unchecked"], ORA, "G2Affine::from_uncompressed:contract", est=40, timeout={"quick": 600, "thorough": 1800}),
     H("c11::g2p_from_compressed_contract", "C11.K.g2p.from_compressed",
       "G2Projective::from_bytes = affine checked decoder then blst_p2_from_affine of that very point; unchecked skips exactly the oracles",
-      [f"{G2}::G2Projective::from_compressed", f"{G2}::G2Projective::from_compressed_unchecked"], ORA, "G2Projective::from_compressed:contract", est=12),
+      [f"{G2}::G2Projective::from_compressed", f"{G2}::G2Projective::from_compressed_unchecked"], ORA, "G2Projective::from_compressed:contract", est=12, timeout={"quick": 600, "thorough": 1800}),
     H("c11::g2p_jacobian_coordinates_is_representation", "C11.K.g2p.jacobian_coordinates",
       "G2Projective::jacobian_coordinates returns Z unchanged, hence must return the stored Jacobian X, Y unchanged",
       [f"{G2}::<G2Projective as CurveExt>::jacobian_coordinates"], "all canonical x,y,z with non-zero real parts, z != 1",
-      "G2Projective::jacobian_coordinates:homogeneous-vs-jacobian", est=8),
+      "G2Projective::jacobian_coordinates:homogeneous-vs-jacobian", est=8, timeout={"quick": 600, "thorough": 1800}),
     # ------------------------------------------------------------------ Jubjub
     H("c11::jubjub_affine_from_bytes_zip216", "C11.K.jubjub.affine.from_bytes",
       "JubjubAffine::from_bytes: accepted iff (sign-masked bytes canonical per blst) AND (square root exists) AND NOT (u = 0 with sign bit set); v from the masked bytes; u's sign fixed by lsb(to_bytes(u)) xor sign bit",
       [f"{JJ}::JubjubAffine::from_bytes", f"{JJ}::JubjubAffine::from_bytes_inner"], "all 32-byte inputs, every blst_fr_* answer and the square-root answer nondeterministic",
-      "JubjubAffine::from_bytes:sign-canonicity", est=20, replay=False, stubs=["ff::helpers::sqrt_tonelli_shanks"]),
+      "JubjubAffine::from_bytes:sign-canonicity", est=20, timeout={"quick": 600, "thorough": 1800}, replay=False, stubs=["ff::helpers::sqrt_tonelli_shanks"]),
     H("c11::jubjub_affine_from_bytes_pre_zip216", "C11.K.jubjub.affine.from_bytes_pre_zip216",
       "JubjubAffine::from_bytes_pre_zip216_compatibility: same without the u = 0 rule",
       [f"{JJ}::JubjubAffine::from_bytes_pre_zip216_compatibility", f"{JJ}::JubjubAffine::from_bytes_inner"], "all 32-byte inputs, every blst_fr_* answer and the square-root answer nondeterministic",
-      "JubjubAffine::from_bytes_pre_zip216:sign-canonicity", est=20, replay=False, stubs=["ff::helpers::sqrt_tonelli_shanks"]),
+      "JubjubAffine::from_bytes_pre_zip216:sign-canonicity", est=20, timeout={"quick": 600, "thorough": 1800}, replay=False, stubs=["ff::helpers::sqrt_tonelli_shanks"]),
     H("c11::jubjub_affine_to_bytes_contract", "C11.K.jubjub.affine.to_bytes",
       "JubjubAffine::to_bytes = little-endian bytes of v with bit 255 := lsb of u's bytes",
       [f"{JJ}::JubjubAffine::to_bytes"], "all coordinate limbs, all oracle answers", "JubjubAffine::to_bytes:contract", est=8),
